@@ -15,7 +15,9 @@ RULE = ('generated probe directories run through the real Merger (its six channe
         'combination of (channel count, template count) in {1,2,3}x{1,2} for 1..3 probes (1..4 thorough) with random contents, '
         'then a seeded random stream of 1..5 probes with 1..6 channels, 1..4 templates, permuted channel maps inside wider raw '
         'files, zero-width / positive-minimum / fractional x coordinates, index tables of 5 signed and unsigned dtypes, '
-        'table widths 1..3, optional matrices present in all / some / no probes, (n,) and (n,1) channel maps. '
+        'table widths 1..3, optional matrices present in all / some / no probes, (n,) and (n,1) channel maps; every probe has '
+        'spikes whose templates use all / all but the trailing / all but a middle / a random subset of its templates '
+        '(cross-property clause 27: merged spike_templates against merged templates.npy and template_feature_ind.npy). '
         'Non-trivial = at least two probes and the merge produced the arrays; distinct = distinct abstract input.')
 EXHAUSTIVE = {'quick': True, 'thorough': True}
 CLAUSES = {
@@ -26,6 +28,8 @@ CLAUSES = {
     24: 'C12_block_diag (whitening_mat, whitening_mat_inv, similar_templates block-diagonal; written iff every probe has the file)',
     25: 'C12_index_tables (pc_feature_ind shifted by coff_k, template_feature_ind shifted by toff_k)',
     26: 'C12_params (same sample rate, n_channels_dat = sum, dat_path = [])',
+    27: 'C12_spike_template_rows / C12_spike_template_tables (link C11 x C12): row spike_templates[i] of the merged '
+        'templates.npy / template_feature_ind.npy is the row of the template the spike named in its own probe',
 }
 TRUSTED = ['np.load/np.save/tobytes and the raw in-place write into templates.npy, scipy.linalg.block_diag, '
            'phylib.utils._misc.read_python/write_python (params.py text layer)',
@@ -63,6 +67,12 @@ def _case(rng, sizes, route=None, vec2d=None, **o):
                                      'probes': probes}}
 
 
+def _spikes(case, sts):
+    for p, st in zip(case['inp']['probes'], sts):
+        p['st'] = list(st)
+    return case
+
+
 def _all(n):
     return {'wm': [True] * n, 'wmi': [True] * n, 'sim': [True] * n}
 
@@ -88,6 +98,14 @@ def generate(tier, rng):
                        present={'wm': [True, False], 'wmi': [False, True], 'sim': [False, False]}))
     cases.append(_case(rng, [(2, 2), (3, 2), (2, 3)], route='merge', present=_all(3), vec2d=True))
     cases.append(_case(rng, [(3, 2), (2, 2), (4, 3)], route='merge', xkind='posmin'))
+    # cross-property defect (fix-c11b): a NON-LAST probe whose trailing templates have no spike (first probe, middle
+    # probe, two trailing templates, whole merge); controls: an unused middle template, trailing unused in the last probe
+    cases.append(_spikes(_case(rng, [(2, 3), (2, 2)], route='methods', stmode='all'), [[0, 1, 0], [0, 1]]))
+    cases.append(_spikes(_case(rng, [(2, 2), (3, 3), (1, 2)], route='methods', stmode='all'), [[0, 1], [1, 0, 1], [1, 0]]))
+    cases.append(_spikes(_case(rng, [(2, 4), (2, 2)], route='methods', stmode='all'), [[1, 0], [0, 1]]))
+    cases.append(_spikes(_case(rng, [(2, 3), (1, 1), (2, 2)], route='merge', stmode='all'), [[0, 0], [0, 0], [1, 0]]))
+    cases.append(_spikes(_case(rng, [(2, 3), (2, 2)], route='methods', stmode='all'), [[0, 2, 2], [0, 1]]))
+    cases.append(_spikes(_case(rng, [(2, 2), (2, 3)], route='methods', stmode='all'), [[0, 1], [0, 1, 0]]))
     if tier == 'search':
         for _ in range(1200):
             k = rng.randint(1, 5)
@@ -154,19 +172,22 @@ def encode(case, obs):
             q.lst(p['tmpl'], _tll), q.zll(p['pc']), q.zll(p['tf']),
             _opt(p.get('wm'), _tll), _opt(p.get('wmi'), _tll), _opt(p.get('sim'), _tll),
             _t(float(p['rate'])), q.z(p['ncd']), q.z(p['offset'])))
-    cin = '(InMerge %d %s)' % (M.UNIT, q.lst(ps))
+    sps = ['(mksp %s %s %d)' % (q.zl(M.spike_times(p, k)), q.zl(M.spike_templates(p)), len(p['tmpl']))
+           for k, p in enumerate(inp['probes'])]
+    cin = '(InMerge %d %s %s)' % (M.UNIT, q.lst(ps), q.lst(sps))
     if obs[0] == 'crash':
         return cin, 'ObsCrash'
     o = obs[1]
 
     def oll(m):
         return q.lst(m, lambda r: q.lst(r, _otok))
-    cobs = '(ObsMerged (mkobs %s %s %s %s %s %s %s %s %s %s %s))' % (
+    cobs = '(ObsMerged (mkobs %s %s %s %s %s %s %s %s %s %s %s %s %s))' % (
         _opt(o['par'], lambda x: '(mkpar %s %s %s)' % (_otok(x[0]), q.z(x[1]), q.z(x[2]))),
         _opt(o['map'], q.zl), _opt(o['probe'], q.zl),
         _opt(o['pos'], lambda l: q.lst(l, lambda r: '(mktxy %s %s)' % (_otok(r[0]), _otok(r[1])))),
         _opt(o['tmpl'], lambda l: q.lst(l, oll)), _opt(o['pc'], q.zll), _opt(o['tf'], q.zll),
-        _opt(o['wm'], oll), _opt(o['wmi'], oll), _opt(o['sim'], oll), q.zl(o['crashed']))
+        _opt(o['wm'], oll), _opt(o['wmi'], oll), _opt(o['sim'], oll), q.zl(o['crashed']),
+        _opt(o.get('stimes'), q.zl), _opt(o.get('st'), q.zl))
     return cin, cobs
 
 
@@ -197,6 +218,10 @@ def dist(case, obs):
         out.append('ind_dtype=' + dt)
     out.append('pc_width=%d' % len(ps[0]['pc'][0]))
     out.append('permuted_map=%s' % any(p['cm'] != sorted(p['cm']) for p in ps))
+    sts = [M.spike_templates(p) for p in ps]
+    out.append('unused_trailing_templates_in_nonlast_probe=%s' % any(max(st) + 1 < len(p['tmpl']) for p, st in zip(ps[:-1], sts[:-1])))
+    out.append('unused_trailing_templates_in_last_probe=%s' % (max(sts[-1]) + 1 < len(ps[-1]['tmpl'])))
+    out.append('unused_middle_templates=%s' % any(len(set(st)) < max(st) + 1 for st in sts))
     return out
 
 
@@ -223,6 +248,8 @@ def _drop_template(p):
     p['tmpl'] = p['tmpl'][:-1]
     p['pc'] = p['pc'][:-1]
     p['tf'] = [[min(v, nt - 2) for v in row] for row in p['tf'][:-1]]
+    if p.get('st') is not None:
+        p['st'] = [min(v, nt - 2) for v in p['st']]
     if p.get('sim') is not None:
         p['sim'] = [row[:-1] for row in p['sim'][:-1]]
     return p
@@ -251,6 +278,14 @@ def shrink(case):
             yield mk(probes=ps[:k] + [_drop_template(p)] + ps[k + 1:])
         if len(p['cm']) > 1:
             yield mk(probes=ps[:k] + [_drop_channel(p)] + ps[k + 1:])
+    for k, p in enumerate(ps):
+        st = M.spike_templates(p)
+        for i in range(len(st)):
+            if len(st) > 1:
+                yield mk(probes=ps[:k] + [dict(p, st=st[:i] + st[i + 1:])] + ps[k + 1:])
+        for i in range(len(st)):
+            if st[i] > 0:
+                yield mk(probes=ps[:k] + [dict(p, st=st[:i] + [st[i] - 1] + st[i + 1:])] + ps[k + 1:])
     if len(ps[0]['tmpl'][0]) > 1:
         yield mk(probes=[dict(p, tmpl=[t[:1] for t in p['tmpl']]) for p in ps])
     if len(ps[0]['pc'][0]) > 1:
@@ -270,7 +305,7 @@ def shrink(case):
 
 
 def repro(case):
-    return ("import sys, tempfile; sys.path[:0] = ['/verif/harness', '/repo']\n"
+    return ("import sys, os, tempfile; sys.path[:0] = ['/verif/harness', os.environ.get('PHYLIB_REPO', '/repo')]\n"
             "from vt import npshim, datasets_c12 as M; npshim.setup_process()\n"
             "inp = %r\n"
             "base = tempfile.mkdtemp(); crashed, out = M.run_merger(inp, base)\n"
